@@ -18,6 +18,9 @@ open Wm Wm.Poison
     pqc <same 14 fields> <in|h>:<k=v,…>     as pq; additionally the message context holds application values under plain
         STRING keys (e.g. "handler_name"), carried in with the message (in) or set by the handler before it fails (h):
         they are not the Router's values (its keys have their own type) and must not show up in the poison metadata
+    pqs <same 14 fields> <live|cin|dl|ch>:<-|ack|nack>     as pq; the message's context is live / was cancelled (deadline passed)
+        when it arrived / is cancelled by the handler, and the handler acked / nacked the message itself before failing:
+        neither changes what the middleware publishes and returns; the settlement is the handler's (first wins)
     pqf <same 14 fields, filter = seq:<answers>>     a stateful filter scripted as the answers ("1"/"0") it still has
         when this message arrives (none left = refuses); observation = as pq plus F:<consultations of the filter>
     pq2 <lvl r|h|-> <block> <14 fields of A> <14 fields of B>     two messages through ONE middleware value:
@@ -135,13 +138,16 @@ def showSettle : Settle → String
   | .ack => "ack" | .nack => "nack"
 
 /-- the model's observation -/
-def modelObs (r : Req) : String :=
+def modelObs (r : Req) (pre : String := "-") : String :=
   let o := middleware r.ptopic r.filter r.pub r.ctx r.msg r.res
-  let pubs := o.pubs.map (fun p => "|".intercalate [hexEnc p.1, hexEnc p.2.uuid, hexEnc p.2.payload, showMeta p.2.md, "1", "1"])
+  -- a message the handler settled itself is no longer unsettled when it is published to the poison topic
+  let uns := if pre == "-" then "1" else "0"
+  let pubs := o.pubs.map (fun p => "|".intercalate [hexEnc p.1, hexEnc p.2.uuid, hexEnc p.2.payload, showMeta p.2.md, "1", uns])
   let pstr := "P" ++ toString pubs.length ++ (if pubs.isEmpty then "" else ":" ++ ";".intercalate pubs)
   -- mode rt: the outputs are what the Router hands to its publisher (only when the chain returned no error)
   let outs := if r.rt && o.err.isSome then [] else o.outs
-  let settle := if r.rt then showSettle (routerSettle o r.opub) else "-"
+  -- the first settlement wins (C03): what the Router does afterwards does not change it
+  let settle := if !r.rt then "-" else if pre != "-" then pre else showSettle (routerSettle o r.opub)
   " ".intercalate [pstr, "O:" ++ showUuids outs, "E:" ++ showErr o.err, "A:" ++ showMeta o.msg.md, "S:" ++ settle]
 
 /-! ### the property monitor: the statement of C13 evaluated on the observation, not through `middleware` -/
@@ -187,7 +193,10 @@ def look (m : Meta) (k : Str) : Option Str := List.lookup k m
 def metaEq (a b : Meta) : Bool :=
   a.length == b.length && a.all (fun kv => look b kv.1 == some kv.2)
 
-def monitor (r : Req) (o : Obs) : String := Id.run do
+def monitor (r : Req) (o : Obs) (pre : String := "-") : String := Id.run do
+  -- pre ≠ "-": the handler acked / nacked the message itself before it failed; the settlement is then its own doing and
+  -- the rules about WHEN and HOW the message is settled do not apply – what the middleware publishes and returns does
+  let free := pre == "-"
   let handled := r.res.err.isNone
   let accepted := match r.res.err with | some e => r.filter e | none => false
   -- a panic leaves the middleware only when the poison publisher itself panicked while it was asked to publish
@@ -213,13 +222,13 @@ def monitor (r : Req) (o : Obs) : String := Id.run do
       if !(base.all (fun kv => poisonKeys.contains kv.1 || look p.md kv.1 == some kv.2)) then return "violated:poison_metadata_kept"
       if !(p.md.all (fun kv => poisonKeys.contains kv.1 || look base kv.1 == some kv.2)) then return "violated:poison_metadata_kept"
       -- "only then reported as success": the publish happened while the message was still unsettled
-      if r.rt && !p.unsettled then return "violated:acked_before_poisoned"
+      if r.rt && free && !p.unsettled then return "violated:acked_before_poisoned"
     | _ => return "violated:poison_published_once"
     match r.pub with
     | .ok =>
       -- reported as success so that it gets acked
       if o.err != "nil" then return "violated:poison_decision"
-      if r.rt && (wantOuts.isEmpty || r.opub) && o.settle != "ack" then return "violated:poisoned_not_acked"
+      if r.rt && free && (wantOuts.isEmpty || r.opub) && o.settle != "ack" then return "violated:poisoned_not_acked"
     | .fail _ =>
       -- the error is still returned and the message is Nacked
       if o.err == "nil" then return "violated:poison_decision"
@@ -227,11 +236,11 @@ def monitor (r : Req) (o : Obs) : String := Id.run do
       let keepsHandlerErr := o.err == "same" ||
         (match o.err.splitOn ":" with | ["both", _, flags] => flags.toList.contains 'H' | _ => false)
       if !keepsHandlerErr then return "violated:handler_error_lost"
-      if r.rt && o.settle != "nack" then return "violated:publish_failed_not_nacked"
+      if r.rt && free && o.settle != "nack" then return "violated:publish_failed_not_nacked"
     | .panic _ =>
       -- a publisher that panics did not store the message: success must not be reported, the message is Nacked
       if o.err == "nil" then return "violated:poison_decision"
-      if r.rt && o.settle != "nack" then return "violated:publish_failed_not_nacked"
+      if r.rt && free && o.settle != "nack" then return "violated:publish_failed_not_nacked"
   else
     -- success and filtered-out errors pass through unchanged and publish nothing
     if !o.pubs.isEmpty then return "violated:pass_through_publishes"
@@ -241,12 +250,12 @@ def monitor (r : Req) (o : Obs) : String := Id.run do
     else
       if o.err != "same" then return "violated:pass_through_error"
       if !r.rt && o.outs != wantOuts then return "violated:pass_through_outputs"
-      if r.rt && o.settle != "nack" then return "violated:failed_not_nacked"
+      if r.rt && free && o.settle != "nack" then return "violated:failed_not_nacked"
     if !metaEq o.after base then return "violated:pass_through_message"
   -- acked implies handled or present in the poison topic
   if r.rt then
     if o.settle != "ack" && o.settle != "nack" then return "violated:not_settled"
-    if o.settle == "ack" && !handled then
+    if o.settle == "ack" && !handled && pre != "ack" then
       let inPoison := accepted && r.pub == .ok &&
         o.pubs.any (fun p => p.topic == r.ptopic && p.uuid == r.msg.uuid && p.payload == r.msg.payload)
       if !inPoison then return "violated:acked_implies_handled_or_poisoned"
@@ -257,6 +266,14 @@ def okApp (s : String) : Bool :=
   match s.splitOn ":" with
   | [w, kvs] => (w == "in" || w == "h") && (parsePairs kvs).isSome
   | _ => false
+
+/-- `<ctx>:<settled>`: state of the message when the handler fails – its context (live | cin = already cancelled when
+    it arrived | dl = deadline passed when it arrived | ch = cancelled by the handler) and whether the handler settled the
+    message itself (- | ack | nack).  Returns the pre-settlement.  The middleware's decision does not depend on either. -/
+def parseState (s : String) : Option String :=
+  match s.splitOn ":" with
+  | [c, p] => if (c == "live" || c == "cin" || c == "dl" || c == "ch") && (p == "-" || p == "ack" || p == "nack") then some p else none
+  | _ => none
 
 def okLvl (s : String) : Bool := s == "r" || s == "h" || s == "-"
 def okBlock (s : String) : Bool := s == "after" || s == "filter" || s == "publish" || s == "handler"
@@ -296,6 +313,15 @@ def handle (line : String) : String :=
     let req := rest.takeWhile (· != "##")
     match parseReq (req.take 14), req.drop 14, parseObs ((rest.dropWhile (· != "##")).drop 1) with
     | some r, [app], some o => if r.answers.isNone && okApp app then monitor r o else "bad-op"
+    | _, _, _ => "bad-op"
+  | "M" :: "pqs" :: rest =>
+    match parseReq (rest.take 14), (rest.drop 14).map parseState with
+    | some r, [some pre] => if r.answers.isNone then modelObs r pre else "bad-op"
+    | _, _ => "bad-op"
+  | "P" :: "pqs" :: rest =>
+    let req := rest.takeWhile (· != "##")
+    match parseReq (req.take 14), (req.drop 14).map parseState, parseObs ((rest.dropWhile (· != "##")).drop 1) with
+    | some r, [some pre], some o => if r.answers.isNone then monitor r o pre else "bad-op"
     | _, _, _ => "bad-op"
   | "M" :: "pqf" :: rest => match parseReq rest with
     | some r => if r.answers.isSome then modelObs r ++ " F:" ++ toString (consultations r.res) else "bad-op"
